@@ -10,7 +10,6 @@ Open Scope Z_scope.
 
 Section HREV.
 Variable N R c0 : Z.
-Hypothesis Hc0 : 1 <= c0.
 
 (* MTop: hrevolve_recurse (nothing at o yet);  MPw: hrevolve_aux right after Write_disk o (the next Forward writes it);
    MLd: hrevolve_aux right after Read_disk o *)
@@ -99,6 +98,7 @@ Proof.
     { intros z Hz. destruct m; [destruct Hmode as (_ & A & _); apply A|destruct Hmode as (_ & A & _); apply A|].
       destruct Hmode as (_ & e & _ & _ & A). destruct (Z.eqb_spec l 0) as [El|El]; [destruct A as [A _]; apply A|].
       destruct A as (A & _). specialize (Hz eq_refl ltac:(lia)). specialize (A z). cbn [In] in A. assert (o <> z) by congruence. tauto. }
+    assert (Hc0 : 1 <= l -> 1 <= c0) by (intros Hl1; inversion HB; subst; lia).
     destruct (blk_ok N R ex true o l c0 ops HB i prev c x) as (acts & c' & x' & lastop & HR & HX & HEx).
     { unfold Entry. cbn [orb]. repeat match goal with |- _ /\ _ => split end; auto; try lia.
       all: try (intros p Hp; left; apply Hkx; exact Hp).
